@@ -304,8 +304,9 @@ def rule_m2(chk: Check, ix: Index):
                     break
                 if got != (kind == "OP" and s0[-1] in "([{"):
                     ok = False
-    chk.require(ok, "M2-delimiter-tables", "consume_macro_params:openers", g.where,
-                "the opener test must recognise exactly ( [ { as the last character of an operator (the tokenizer's own bracket rule)")
+    from .bufeval import arbitrate as _arb2
+    _arb2(chk, ok, "M2-delimiter-tables", "consume_macro_params:openers", g.where,
+          "the opener test must recognise exactly ( [ { as the last character of an operator (the tokenizer's own bracket rule)")
     # raw tokenizer uses the same opener characters
     h = ix.get("next_psuedo_matches")
     raw = [n for n in own_nodes(h.node) if isinstance(n, ast.Compare) and norm_stmt(n.left) == "token[-1]"]
